@@ -1,0 +1,131 @@
+//go:build verif
+
+package dns
+
+// Verification hooks (build tag "verif").  Without the tag every vhook call in the
+// package resolves to the empty function in verif_off.go and is inlined away.
+//
+// Two kinds of call site exist in server.go:
+//
+//   - record events (Ev*): placed inside the critical section that changes or reads
+//     the reported state, after the change and before the lock is released.  A hook
+//     that takes a sequence number therefore orders all events on srv.lock-protected
+//     state exactly as the lock ordered them.  A record hook MUST NOT block.
+//   - gate points (Gate*): placed before a critical section and never under a held
+//     lock.  The hook may park the calling goroutine there for as long as it likes.
+
+import (
+	"net"
+	"reflect"
+	"unsafe"
+)
+
+// VerifHook, when non-nil, is called at every hook site.  srv is the server the
+// event belongs to; a and b are event specific (see the constants).  Set it before
+// any server is started and do not change it while servers run.
+var VerifHook func(ev string, srv *Server, a, b uintptr)
+
+// Record events.
+const (
+	VerifEvStartRefused = "start.refused"    // under Lock: srv.started was already true
+	VerifEvStarted      = "start.started"    // under Lock: init() done, started = true
+	VerifEvShutRefused  = "shutdown.refused" // under Lock: srv.started was false
+	VerifEvShutBegin    = "shutdown.begin"   // under Lock: started = false, deadlines moved, listener closed; a = len(conns)
+	VerifEvConnReg      = "conn.reg"         // under Lock: conns[rw] inserted; a = conn id
+	VerifEvConnUnreg    = "conn.unreg"       // under Lock: conns[rw] deleted; a = conn id
+	VerifEvReadDL       = "read.dl"          // under RLock: a = conn id, b = value of srv.started (1: the deadline was just set)
+	VerifEvAction       = "dns.action"       // a = conn id (0 for packet conns), b = MsgAcceptAction taken
+	VerifEvHandlerEnter = "handler.enter"    // a = conn id (0 for packet conns), b = buffer id of the request
+	VerifEvHandlerExit  = "handler.exit"     // same arguments as handler.enter
+	VerifEvPoolGet      = "pool.get"         // after udpPool.Get: a = buffer id
+	VerifEvPoolPut      = "pool.put"         // before udpPool.Put: a = buffer id
+	VerifEvDrained      = "serve.drained"    // serve loop defer: wg.Wait() returned
+	VerifEvChanClosed   = "serve.chanclosed" // serve loop defer: close(srv.shutdown) done
+	VerifEvWorkerExit   = "worker.exit"      // after wg.Done(): a = conn id (0 for a packet worker), b = buffer id (packet worker)
+)
+
+// Gate points.
+const (
+	VerifGateServeTop    = "gate.serve.top"       // serve loop, before the next isStarted() check
+	VerifGateServeGot    = "gate.serve.got"       // Accept / read returned, nothing registered or spawned yet; a = conn id or buffer id, b = 1 on error
+	VerifGateServeDefer  = "gate.serve.defer"     // serve loop defer, before wg.Wait()
+	VerifGateConnStart   = "gate.conn.start"      // first statement of the TCP connection worker; a = conn id
+	VerifGateConnTop     = "gate.conn.top"        // connection worker, before the next loop condition; a = conn id
+	VerifGateConnClosing = "gate.conn.closing"    // connection worker, conn closed, before the unregister critical section; a = conn id
+	VerifGatePktStart    = "gate.pkt.start"       // first statement of the per-packet worker; a = buffer id
+	VerifGateReadEnter   = "gate.read.enter"      // readTCP/readUDP/readPacketConn entry, before the RLock; a = conn id
+	VerifGateShutEnter   = "gate.shutdown.enter"  // ShutdownContext entry, before the Lock
+	VerifGateShutSelect  = "gate.shutdown.select" // ShutdownContext, lock released, before the select
+)
+
+func vhook(ev string, srv *Server, a, b uintptr) {
+	if h := VerifHook; h != nil {
+		h(ev, srv, a, b)
+	}
+}
+
+// VerifID is the identity vhook reports for a connection, listener or packet conn:
+// the pointer value when the dynamic type is a pointer, 0 otherwise.
+func VerifID(x interface{}) uintptr {
+	if x == nil {
+		return 0
+	}
+	v := reflect.ValueOf(x)
+	switch v.Kind() {
+	case reflect.Ptr, reflect.UnsafePointer, reflect.Chan, reflect.Map, reflect.Func:
+		return v.Pointer()
+	}
+	return 0
+}
+
+// VerifBufID is the identity vhook reports for a message buffer: the address of
+// its backing array.
+func VerifBufID(m []byte) uintptr {
+	if cap(m) == 0 {
+		return 0
+	}
+	return uintptr(unsafe.Pointer(unsafe.SliceData(m)))
+}
+
+func vconn(c net.Conn) uintptr        { return VerifID(c) }
+func vpconn(c net.PacketConn) uintptr { return VerifID(c) }
+func vbuf(m []byte) uintptr           { return VerifBufID(m) }
+
+func vbool(b bool) uintptr {
+	if b {
+		return 1
+	}
+	return 0
+}
+
+func verr(err error) uintptr { return vbool(err != nil) }
+
+// vwconn is the conn id of a response writer: its TCP connection, 0 for packet conns.
+func vwconn(w *response) uintptr {
+	if w.tcp != nil {
+		return VerifID(w.tcp)
+	}
+	return 0
+}
+
+// VerifConnCount returns len(srv.conns) under the server lock.
+func (srv *Server) VerifConnCount() int {
+	srv.lock.RLock()
+	defer srv.lock.RUnlock()
+	return len(srv.conns)
+}
+
+// VerifStarted returns srv.started under the server lock.
+func (srv *Server) VerifStarted() bool { return srv.isStarted() }
+
+// VerifTsigVerifyAt is TsigVerifyWithProvider with the current time given by the
+// caller (seconds since the epoch) instead of time.Now().
+func VerifTsigVerifyAt(msg []byte, provider TsigProvider, requestMAC string, timersOnly bool, now uint64) error {
+	return tsigVerify(msg, provider, requestMAC, timersOnly, now)
+}
+
+// VerifTsigSecretProvider returns the package's own TsigProvider for a map of
+// base64 secrets keyed by canonical key name (what Server.TsigSecret / Client.TsigSecret use).
+func VerifTsigSecretProvider(secrets map[string]string) TsigProvider {
+	return tsigSecretProvider(secrets)
+}
